@@ -141,6 +141,16 @@ static void case_fn(uint64_t idx, void *ctx)
               for (int i = 0; i < tn && !bad; i++) { spif_str_t ts = SPIF_STR(SPIF_LIST_GET(tl, i)); char r[24]; strcpy(r, ref.t[i]); trim(r); if (strcmp((ts && ts->s) ? (char *) ts->s : "", r)) bad = 1; }
               if (bad) FAIL("spif_tok_done", "model:reuse", shape, "a tokenizer that used other quote/escape characters before done() gives %d tokens that differ from the grammar's %d (delimiters %s)", tn, ref.n, d ? d : "whitespace"); }
           spif_tok_del(u); }
+        /* a tokenizer that worked with the delimiter set ";" and is then given this delimiter set (no separator object at all for the default one) */
+        { spif_tok_t u = spif_tok_new_from_ptr((spif_charptr_t) "q;w x;y");
+          spif_tok_set_sep(u, spif_str_new_from_ptr((spif_charptr_t) ";")); spif_tok_eval(u);
+          spif_tok_set_sep(u, d ? spif_str_new_from_ptr((spif_charptr_t) hd) : (spif_str_t) NULL);
+          spif_tok_set_src(u, spif_str_new_from_ptr((spif_charptr_t) s));
+          if (!spif_tok_eval(u)) FAIL("spif_tok_eval", "model:return", shape, "eval of a tokenizer given another delimiter set returned FALSE");
+          else { spif_list_t tl = spif_tok_get_tokens(u); int tn = tl ? (int) SPIF_LIST_COUNT(tl) : 0, bad = tn != ref.n;
+              for (int i = 0; i < tn && !bad; i++) { spif_str_t ts = SPIF_STR(SPIF_LIST_GET(tl, i)); char r[24]; strcpy(r, ref.t[i]); trim(r); if (strcmp((ts && ts->s) ? (char *) ts->s : "", r)) bad = 1; }
+              if (bad) FAIL("spif_tok_set_sep", "model:reuse", shape, "a tokenizer that used the delimiter \";\" before gives %d tokens that differ from the grammar's %d for delimiters %s", tn, ref.n, d ? d : "whitespace (separator set to NULL)"); }
+          spif_tok_del(u); }
         /* the same text followed by a newline, read from a descriptor: the tokenizer built by new_from_fd holds what new_from_ptr holds */
         if (di < 2) { char t2[40]; snprintf(t2, sizeof t2, "%s\n", raw); int pf[2];
           if (pipe(pf) == 0) { size_t tl = strlen(t2); if (write(pf[1], t2, tl) == (ssize_t) tl) { close(pf[1]);
